@@ -831,6 +831,29 @@ theorem rc_replace_sel (e : Env α) (r : Row α) : ∀ w : W α, tcTree nG rc.to
     have := (rc.toW_not_and l x).symm
     simp only [replaceTF, this, if_false, sel_and, hr, pf_replaceTF_rc rc _ l h1]
 
+theorem RC.not_pfTree (nG : Nat) : pfTree nG rc.toW = false := by
+  rw [pfTree_leaf (rc.toW_not_and)]; exact rc.not_pf nG
+
+theorem restSel_leaf_rc (e : Env α) (r : Row α) : restSel e rc.toW rc.toW r = true := by
+  unfold restSel
+  split
+  · rename_i h; exact absurd h (rc.toW_not_and _ _)
+  · simp
+
+/-- the conjuncts other than the time leaf are the same before and after the normalisation -/
+theorem rc_restSel (e : Env α) (r : Row α) : ∀ w : W α, tcTree nG rc.toW w = true →
+    restSel e rc.mirror.toW (replaceTF rc.toW rc.mirror.toW w) r = restSel e rc.toW w r := by
+  apply tcTree_induction
+  · rw [replaceTF_leaf_rc, restSel_leaf, restSel_leaf_rc]
+  · intro l x _ h2 hl
+    have := (rc.toW_not_and l x).symm
+    simp only [replaceTF, this, if_false, restSel, hl, pf_replaceTF_rc rc _ x h2]
+    rw [pf_restSel e rc.mirror.toW (rc.mirror.not_pfTree nG) r x h2, pf_restSel e rc.toW (rc.not_pfTree nG) r x h2]
+  · intro l x h1 _ hr
+    have := (rc.toW_not_and l x).symm
+    simp only [replaceTF, this, if_false, restSel, hr, pf_replaceTF_rc rc _ l h1]
+    rw [pf_restSel e rc.mirror.toW (rc.mirror.not_pfTree nG) r l h1, pf_restSel e rc.toW (rc.not_pfTree nG) r l h1]
+
 end rcs
 
 end MindsVerif.TS
